@@ -1351,3 +1351,189 @@ Qed.
 
 Lemma step_cfg le t o sc : not_abort (snd (step le t o sc)) -> cfg (fst (step le t o sc)) = cfg t.
 Proof. intros H. apply (step_pres (fun t' => cfg t' = cfg t) (cfg_stable (cfg t)) le t o sc eq_refl H). Qed.
+
+(* ------------------------------------------------------------------------------------------ *)
+(* 5. the monitor's ghost ledger along the model's own trace *)
+
+Definition lget (l : list (N * (N * N))) (v : N) : N * N := match aget l v with Some y => y | None => (0, 0) end.
+
+Lemma lget_put l u x v : lget (ledger_put l u x) v = if N.eqb v u then x else lget l v.
+Proof.
+  unfold lget, ledger_put. cbn [aget]. destruct (N.eqb v u) eqn:E; [reflexivity|]. rewrite aget_remove, E. reflexivity.
+Qed.
+
+(* the ledger accounts for every user the tower holds: granted = balance + forfeited *)
+Definition Led (t : tower) (l : list (N * (N * N))) : Prop :=
+  forall v, has_row t v = true -> fst (lget l v) = bal t v + snd (lget l v).
+
+(* the first check of TowerMon.mon_C07 *)
+Definition conservation_ok (l : list (N * (N * N))) (post : obs) : bool :=
+  forallb (fun r => let '(g, f) := match aget l (fst r) with Some y => y | None => (0, 0) end in
+                    N.eqb g (u_slots (snd r) + held post (fst r) + f)) (o_users post).
+
+Lemma mon_C07_conservation c m pre o x post :
+  exists rest, fst (mon_C07 c m pre o x post) = chk (conservation_ok (ledger_step c m pre o x post) post) 7 ++ rest.
+Proof. eexists. reflexivity. Qed.
+
+Lemma mon_C07_ledger c m pre o x post : snd (mon_C07 c m pre o x post) = ledger_step c m pre o x post.
+Proof. reflexivity. Qed.
+
+Lemma aget_In_nodup {V} (m : amap V) k v : NoDup (map fst m) -> In (k, v) m -> aget m k = Some v.
+Proof.
+  induction m as [|[k' v'] m IH]; intros Hnd Hi; [destruct Hi|].
+  cbn [map fst] in Hnd. apply NoDup_cons_iff in Hnd. destruct Hnd as [Hk Hnd]. cbn [aget].
+  destruct Hi as [Hi|Hi].
+  - inversion Hi; subst. rewrite N.eqb_refl. reflexivity.
+  - destruct (N.eqb k k') eqn:E; [|apply IH; assumption].
+    apply N.eqb_eq in E. subst k'. exfalso. apply Hk. change k with (fst (k, v)). apply in_map. exact Hi.
+Qed.
+
+Lemma Led_conservation t l : Inv t -> Led t l -> conservation_ok l (observe t) = true.
+Proof.
+  intros HI HL. unfold conservation_ok. apply forallb_forall. intros [v ui] Hin. cbn [fst snd observe o_users] in *.
+  pose proof (aget_In_nodup _ _ _ (inv_users_nodup t HI) Hin) as Hget.
+  assert (Hrow : has_row t v = true) by (unfold has_row, amem; rewrite Hget; reflexivity).
+  specialize (HL v Hrow). unfold lget in HL. unfold bal, avail in HL. rewrite Hget in HL.
+  rewrite <- held_t_obs. destruct (aget l v) as [[g f]|]; cbn [fst snd] in HL; apply N.eqb_eq; lia.
+Qed.
+
+Lemma Led_same t t' l : same_ledger t t' -> Led t l -> Led t' l.
+Proof.
+  intros Hs HL v Hrow. destruct (same_ledger_bal t t' Hs v) as [Hg Hb]. rewrite Hb. apply HL.
+  unfold has_row, amem in *. rewrite <- Hg. exact Hrow.
+Qed.
+
+(* what a step answers *)
+Lemma step_out_shape le t o sc t' x :
+  step le t o sc = (t', x) ->
+  match o, x with
+  | ORegister _, ORegisterRes _ | OAdd _ _ _ _ _, OAddRes _ | OGet _ _, OGetRes _ | OGetSub _, OSubRes _
+  | OConnect _ _, OBlockRes | ODisconnect, OBlockRes | _, OAbort _ => True
+  | _, _ => False
+  end.
+Proof.
+  destruct o; cbn [step].
+  - destruct (gk_add_update_user _ _); cbn [wrap]; intros H; inversion H; exact I.
+  - destruct (w_add_appointment _ _ _ _ _ _ _); cbn [wrap]; intros H; inversion H; exact I.
+  - destruct (w_get_appointment _ _ _); cbn [wrap]; intros H; inversion H; exact I.
+  - destruct (w_get_subscription_info _ _); cbn [wrap]; intros H; inversion H; exact I.
+  - destruct (run_listeners _ _ _); cbn [wrap]; intros H; inversion H; exact I.
+  - destruct (last_hash _); [|intros H; inversion H; exact I].
+    destruct (run_listeners _ _ _); cbn [wrap]; intros H; inversion H; exact I.
+Qed.
+
+(* registration *)
+Lemma led_register le c t m u sc t' r :
+  Inv t -> cfg t = c -> Led t (m_ledger m) -> step le t (ORegister u) sc = (t', ORegisterRes r) ->
+  Led t' (ledger_step c m (observe t) (ORegister u) (ORegisterRes r) (observe t')).
+Proof.
+  intros HI Hc HL Hstep. pose proof (register_bal le t u sc t' r HI Hstep) as Hb. destruct r as [s st e|].
+  2:{ cbn [ledger_step]. apply (Led_same t t'); assumption. }
+  destruct Hb as [Hnew [Hold [_ [_ Hoth]]]]. rewrite Hc in *.
+  unfold ledger_step. change (has_user (observe t) u) with (amem (db_users t) u).
+  change (ledger_get m u) with (lget (m_ledger m) u).
+  intros v Hrow. destruct (N.eqb v u) eqn:Ev.
+  - apply N.eqb_eq in Ev. subst v. destruct (amem (db_users t) u) eqn:Em.
+    + specialize (HL u Em). destruct (lget (m_ledger m) u) as [g f]. rewrite lget_put, N.eqb_refl.
+      cbn [fst snd] in *. rewrite (Hold eq_refl). lia.
+    + rewrite lget_put, N.eqb_refl. cbn [fst snd]. rewrite (Hnew eq_refl). lia.
+  - assert (Hv : v <> u) by (apply N.eqb_neq; exact Ev). destruct (Hoth v Hv) as [Hg Hbv].
+    assert (Hrow0 : has_row t v = true) by (unfold has_row, amem in *; rewrite <- Hg; exact Hrow).
+    specialize (HL v Hrow0). rewrite Hbv.
+    destruct (amem (db_users t) u); [destruct (lget (m_ledger m) u) as [g f]|]; rewrite lget_put, Ev; exact HL.
+Qed.
+
+(* add_appointment *)
+Lemma led_add le c t m signer loc b delay sig sc t' r :
+  Inv t -> Led t (m_ledger m) ->
+  match signer with Some u => bal t u < U32MOD | None => True end ->
+  step le t (OAdd signer loc b delay sig) sc = (t', OAddRes r) ->
+  Led t' (ledger_step c m (observe t) (OAdd signer loc b delay sig) (OAddRes r) (observe t')).
+Proof.
+  intros HI HL Hside Hstep. pose proof (add_bal le t signer loc b delay sig sc t' r HI Hstep) as Hb.
+  destruct r as [st sg sl e| |e|].
+  2:{ replace (ledger_step c m (observe t) (OAdd signer loc b delay sig) (OAddRes AddAuthOrSlots) (observe t')) with (m_ledger m)
+        by (destruct signer; reflexivity). apply (Led_same t t'); assumption. }
+  2:{ replace (ledger_step c m (observe t) (OAdd signer loc b delay sig) (OAddRes (AddExpired e)) (observe t')) with (m_ledger m)
+        by (destruct signer; reflexivity). apply (Led_same t t'); assumption. }
+  2:{ replace (ledger_step c m (observe t) (OAdd signer loc b delay sig) (OAddRes AddTriggered) (observe t')) with (m_ledger m)
+        by (destruct signer; reflexivity). apply (Led_same t t'); assumption. }
+  destruct Hb as [u [Hs [_ [_ [Hnw Hoth]]]]]. subst signer. destruct (Hnw Hside) as [_ Hbal]. clear Hnw.
+  destruct (add_success_authentic le t sc (Some u) loc b delay sig t' st sg sl e Hstep) as [u' [ui [Hs' [Hg _]]]].
+  inversion Hs'; subst u'. clear Hs'.
+  assert (Hrowu : has_row t u = true).
+  { unfold has_row, amem. rewrite <- (inv_sync t HI u). unfold gk_get in Hg. rewrite Hg. reflexivity. }
+  unfold ledger_step. change (o_apps (observe t')) with (db_apps t').
+  change (existsb (fun a => uuid_eqb (app_uuid a) (loc, u) && blob_eqb (a_blob a) b) (db_apps t'))
+    with (held_version (db_apps t') loc u b).
+  change (ledger_get m u) with (lget (m_ledger m) u).
+  intros v Hrow. destruct (N.eqb v u) eqn:Ev.
+  - apply N.eqb_eq in Ev. subst v. specialize (HL u Hrowu).
+    destruct (held_version (db_apps t') loc u b).
+    + rewrite Hbal. exact HL.
+    + destruct (lget (m_ledger m) u) as [g f]. rewrite lget_put, N.eqb_refl. cbn [fst snd] in *. lia.
+  - assert (Hv : v <> u) by (apply N.eqb_neq; exact Ev). destruct (Hoth v Hv) as [Hgv [_ Hbv]].
+    assert (Hrow0 : has_row t v = true) by (unfold has_row, amem in *; rewrite <- Hgv; exact Hrow).
+    specialize (HL v Hrow0). rewrite Hbv.
+    destruct (held_version (db_apps t') loc u b); [exact HL|].
+    destruct (lget (m_ledger m) u) as [g f]. rewrite lget_put, Ev. exact HL.
+Qed.
+
+(* block connection: the fold of ledger_step adds, user by user, the rows that disappear without completing *)
+Lemma fold_forfeit (h : N) (txs : list N) (post_apps : list app) (pre_trks : list trk) : forall apps l v,
+  lget (fold_left (fun l' a =>
+                   if existsb (fun a' => uuid_eqb (app_uuid a') (app_uuid a)) post_apps then l'
+                   else match find_trk pre_trks (app_uuid a) with
+                        | Some k => if completing h txs k then l'
+                                    else let '(g, f) := match aget l' (a_user a) with Some y => y | None => (0, 0) end in
+                                         ledger_put l' (a_user a) (g, f + slots_of (b_len (a_blob a)))
+                        | None => let '(g, f) := match aget l' (a_user a) with Some y => y | None => (0, 0) end in
+                                  ledger_put l' (a_user a) (g, f + slots_of (b_len (a_blob a)))
+                        end) apps l) v
+  = (fst (lget l v),
+     snd (lget l v) + ssum (filter (fun a => ofu v a && gone post_apps a
+                                            && negb (match find_trk pre_trks (app_uuid a) with
+                                                     | Some k => completing h txs k | None => false end)) apps)).
+Proof.
+  induction apps as [|a apps IH]; intros l v.
+  - cbn [fold_left filter ssum fold_right]. destruct (lget l v) as [g f]. cbn [fst snd]. f_equal. lia.
+  - cbn [fold_left]. rewrite IH. clear IH. cbn [filter]. unfold gone at 2.
+    assert (Hbump : forall l0, lget (let '(g, f) := match aget l0 (a_user a) with Some y => y | None => (0, 0) end in
+                                     ledger_put l0 (a_user a) (g, f + slots_of (b_len (a_blob a)))) v
+                               = if ofu v a then (fst (lget l0 v), snd (lget l0 v) + aslots a) else lget l0 v).
+    { intros l0. change (match aget l0 (a_user a) with Some y => y | None => (0, 0) end) with (lget l0 (a_user a)).
+      destruct (lget l0 (a_user a)) as [g f] eqn:El. rewrite lget_put. unfold ofu. rewrite (N.eqb_sym v (a_user a)).
+      destruct (N.eqb (a_user a) v) eqn:Ev; [|reflexivity]. apply N.eqb_eq in Ev. subst v. rewrite El. reflexivity. }
+    destruct (existsb (fun a' => uuid_eqb (app_uuid a') (app_uuid a)) post_apps).
+    { cbn [negb]. rewrite andb_false_r. cbn [andb]. reflexivity. }
+    cbn [negb]. rewrite andb_true_r.
+    destruct (find_trk pre_trks (app_uuid a)) as [k|].
+    + destruct (completing h txs k).
+      * cbn [negb]. rewrite andb_false_r. reflexivity.
+      * cbn [negb]. rewrite andb_true_r. rewrite Hbump. destruct (ofu v a); [|reflexivity].
+        rewrite ssum_cons. cbn [fst snd]. f_equal. lia.
+    + cbn [negb]. rewrite andb_true_r. rewrite Hbump. destruct (ofu v a); [|reflexivity].
+      rewrite ssum_cons. cbn [fst snd]. f_equal. lia.
+Qed.
+
+Lemma lget_filter (p : N -> bool) l v : p v = true -> lget (filter (fun e => p (fst e)) l) v = lget l v.
+Proof. intros H. unfold lget. rewrite (aget_filter_key p), H. reflexivity. Qed.
+
+Lemma led_connect le c t m hash txs sc t' :
+  Inv t -> m_height m = gk_height t -> Led t (m_ledger m) -> connect_side t txs ->
+  step le t (OConnect hash txs) sc = (t', OBlockRes) ->
+  Led t' (ledger_step c m (observe t) (OConnect hash txs) OBlockRes (observe t')) /\
+  Led t' (filter (fun e => has_user (observe t') (fst e))
+                 (ledger_step c m (observe t) (OConnect hash txs) OBlockRes (observe t'))).
+Proof.
+  intros HI Hh HL Hside Hstep.
+  assert (H1 : Led t' (ledger_step c m (observe t) (OConnect hash txs) OBlockRes (observe t'))).
+  { intros v Hrow. destruct (connect_bal le t hash txs sc t' HI Hside Hstep v Hrow) as [Hrow0 [_ [_ Hbal]]].
+    specialize (HL v Hrow0). unfold ledger_step. rewrite Hh.
+    change (o_apps (observe t)) with (db_apps t). change (o_apps (observe t')) with (db_apps t').
+    change (o_trks (observe t)) with (db_trks t).
+    rewrite (fold_forfeit (gk_height t + 1) txs (db_apps t') (db_trks t) (db_apps t) (m_ledger m) v).
+    cbn [fst snd]. fold (forfeited_connect t txs t' v) in Hbal. unfold forfeited_connect, completing_row in Hbal. lia. }
+  split; [exact H1|]. intros v Hrow.
+  rewrite (lget_filter (fun k => has_user (observe t') k)); [apply H1; exact Hrow|exact Hrow].
+Qed.
